@@ -236,6 +236,13 @@ theorem nwchem_ecp_premises {ν : Type} (isNum isInt : ν → Bool) (e : Nat × 
   exact ⟨h1, h3, ham.1, ham.2, hul p.am (List.mem_range.2 h2)⟩
 
 open BSE.Nwchem in
+/-- the shape premise of `nwchem_ecp_readback` follows from the natural one: at least two potentials, momenta pairwise
+different — the writer's order then is "highest first, the others ascending" -/
+theorem nwchem_ecp_shape {ν : Type} (e : Nat × List Char × List (EPot ν))
+    (hn : (e.2.2.map (·.am)).Nodup) (h2 : 2 ≤ e.2.2.length) : ElShape e :=
+  elShape_of_distinct e hn h2
+
+open BSE.Nwchem in
 /-- **the ECP round trip is faithful exactly when the highest momentum is one above the next** -/
 theorem nwchem_ecp_faithful_iff {ν : Type} (e : Nat × List Char × List (EPot ν)) (top : EPot ν) (rest : List (EPot ν))
     (hw : writeOrder e.2.2 = top :: rest) :
